@@ -14,7 +14,7 @@ with tempfile.TemporaryDirectory() as td:
     passed = set()
     for tc in ET.parse(junit).getroot().iter("testcase"):
         if not any(ch.tag in ("failure", "error", "skipped") for ch in tc):
-            passed.add(f"{tc.get('classname')}::{tc.get('name')}")
+            passed.add(f"{tc.get('classname')}::{tc.get('name')}".replace(os.path.realpath(repo), "/repo").replace(repo.rstrip("/"), "/repo"))
 want = set(base["stable_pass"])
 missing = sorted(want - passed)
 print(f"baseline stable_pass={len(want)} passed_now={len(passed)} missing={len(missing)}")
